@@ -812,6 +812,125 @@ def c_env_threads(tier, kinds):
     return rep.done()
 
 
+def usable_cpus():
+    try:
+        return sorted(os.sched_getaffinity(0))
+    except Exception:
+        return list(range(fe.NCPU))
+
+
+def c_env_cpus(tier, kinds):
+    """the number of CPUs the process may use (cgroup cpuset, taskset, batch-system binding) is part of the environment,
+    like RAYON_NUM_THREADS: results never depend on it, whatever thread count is requested (more, fewer, as many, or the
+    default).  One process per (kind, usable CPUs, -t, record count) under `taskset`; oracle = the bytes (tables: the
+    parsed table) of the unrestricted one-thread run of the same command, which the other parts compare with the model.
+    kind "header" is C03: the index maps (all codes, in the harness) and the header line for every k."""
+    rep = Rep()
+    cpus = usable_cpus()
+    if not shutil.which("taskset") or len(cpus) < 2:
+        rep.count("env.cpu_runs", 0)
+        rep.note("taskset unavailable or a single usable CPU: the CPU-count dimension was not explored")
+        return rep.done()
+    counts = [n for n in ((1, 2, 3, 6) if tier == "quick" else range(1, len(cpus))) if n < len(cpus)]
+    d = fresh_dir("cpuin")
+    sets = {}
+    for nrec in (3, 16, 37):
+        recs = lcg_records(nrec, 500 + nrec, 24, 70, True)
+        sets[nrec] = (recs, write_inputs(d, "c%d" % nrec, recs))
+    threads = (0, 1, 2, 3, 4, 8, 16)
+
+    def argv(kind, inp, out, t):
+        if kind == "oligo":
+            return ["comp", "oligo", "-i", inp, "-o", out, "-k", "3", "-t", str(t)], [""]
+        if kind == "cgr":
+            return ["comp", "cgr", "-i", inp, "-o", out, "-v", "1000", "-t", str(t)], [""]
+        if kind == "kcgr":
+            return ["comp", "cgr", "-i", inp, "-o", out, "-k", "3", "-v", "8", "-t", str(t)], [""]
+        if kind == "cov":
+            return ["cov", "-i", inp, "-o", out, "-k", "9", "-s", "1", "-c", "6", "-t", str(t)], ["/kmers.vectors", "/kmers.counts"]
+        if kind == "ctr":
+            return ["ctr", "-i", inp, "-o", out, "-k", "9", "-t", str(t)], ["/kmers.counts"]
+        if kind == "s2m":
+            return ["min", "-i", inp, "-o", out, "-m", "5", "-w", "9", "-p", "s2m", "-t", str(t)], [""]
+        if kind == "m2s":
+            return ["min", "-i", inp, "-o", out, "-m", "5", "-w", "9", "-p", "m2s", "-t", str(t)], [""]
+        raise ValueError(kind)
+
+    def canon(kind, suffix, data):
+        if data is None:
+            return None
+        if suffix == "/kmers.counts":
+            return parse_counts(data, False, 9)
+        if kind == "m2s":
+            return m2s_canon(data)
+        return data
+
+    def outcome(kind, nrec, t, ncpu):
+        wd = fresh_dir("cpu")
+        out = os.path.join(wd, "out")
+        args, files = argv(kind, sets[nrec][1]["fa"], out, t)
+        pre = [] if ncpu is None else ["taskset", "-c", ",".join(str(c) for c in cpus[:ncpu])]
+        rc, so, err, to = run(pre + [fe.CLI] + args, timeout=120)
+        res = (rc, to, [canon(kind, f, read(out + f)) for f in files])
+        shutil.rmtree(wd, ignore_errors=True)
+        return res, err
+
+    jobs = []
+    for kind in kinds:
+        if kind == "header":
+            for n in counts:
+                for k in range(1, 8):
+                    jobs.append(("header", n, k, None))
+            continue
+        for nrec in sets:
+            base, _ = outcome(kind, nrec, 1, None)
+            for n in counts:
+                for t in threads:
+                    jobs.append((kind, n, t, (nrec, base)))
+
+    def do(job):
+        kind, n, t, extra = job
+        rep.ev(1, 1)
+        pre = ["taskset", "-c", ",".join(str(c) for c in cpus[:n])]
+        if kind == "header":
+            k = t
+            a = {"kind": kind, "cpus": n, "k": k}
+            rc, so, err, to = run(pre + [fe.KTMC, "case", "C03", str(k)], timeout=120, env={"KTMC_SCRATCH": fe.scratch_base()})
+            if rc != 0 or to:
+                rep.violation("index-depends-on-usable-cpus", k, "with %d usable CPUs the index maps / header of k=%d are not the sorted canonical k-mers: %s" % (n, k, (so + err)[-300:]), "c_env_cpus", a)
+                return
+            if k < 3:  # the command line accepts k from 3
+                return
+            wd = fresh_dir("cpuh")
+            out = os.path.join(wd, "o.txt")
+            inp = sets[3][1]["fa"]
+            rc, so, err, to = run(pre + [fe.CLI, "comp", "oligo", "-i", inp, "-o", out, "-k", str(k), "-H", "-t", "0"], timeout=120)
+            ls = lines_of(read(out)) or []
+            names = [x.encode() for x in pm.header_names(k)]
+            if rc != 0 or not ls or ls[0].split(b" ") != names or any(len(r.split(b" ")) != len(names) for r in ls[1:]):
+                rep.violation("header-depends-on-usable-cpus", k, "kmertools comp oligo -H -k %d with %d usable CPUs: exit %s, header %r... (expected the %d canonical k-mers in order), %d lines" % (k, n, rc, (ls[0][:50] if ls else b""), len(names), len(ls)), "c_env_cpus", a)
+            shutil.rmtree(wd, ignore_errors=True)
+            return
+        nrec, base = extra
+        got, err = outcome(kind, nrec, t, n)
+        if got != base:
+            a = {"kind": kind, "cpus": n, "t": t, "records": nrec}
+            detail = "exit %s vs %s" % (got[0], base[0])
+            for x, y in zip(got[2], base[2]):
+                if x != y:
+                    if isinstance(x, bytes) and isinstance(y, bytes):
+                        detail += "; %d lines vs %d lines" % (len(x.splitlines()), len(y.splitlines()))
+                    else:
+                        detail += "; a result file differs or is missing"
+            rep.violation("result-depends-on-usable-cpus", n * 100 + t, "kmertools %s on %d records with -t %d restricted to %d usable CPUs differs from the unrestricted one-thread run: %s %r" % (kind, nrec, t, n, detail, err[-160:]), "c_env_cpus", a)
+
+    pmap(do, jobs)
+    rep.count("env.cpu_runs", len(jobs))
+    rep.count("env.cpu_counts_explored", len(counts))
+    rep.sample("taskset -c 0-2 kmertools comp cgr -t 8 on 16 records: same bytes as the unrestricted -t 1 run")
+    return rep.done()
+
+
 def m2s_canon(data):
     if data is None:
         return None
@@ -866,7 +985,17 @@ def c13(tier):
     if rc != 0 or not os.path.exists(exp):
         raise fe.Machinery("ktmc expect failed: %s" % err[-500:])
     driver = os.path.join(fe.VERIF, "py", "pydriver.py")
-    jobs = [("iter", None)] + [("batch", n) for n in (1, 2, 8, 16)]
+    jobs = [("iter", None)] + [("batch", n) for n in (1, 2, 8, 16)] + [("bigbatch", 4)]
+    skipped = []
+    if tier == "thorough":
+        try:
+            avail = int([l for l in open("/proc/meminfo") if l.startswith("MemAvailable")][0].split()[1]) // (1 << 20)
+        except Exception:
+            avail = 0
+        if avail >= 30:
+            jobs.append(("hugebatch", 8))
+        else:
+            skipped.append("batch adding up to more than 2^32 bases not run: %d GiB of memory available" % avail)
 
     def do(job):
         mode, threads = job
@@ -888,7 +1017,8 @@ def c13(tier):
 
     reps = pmap(do, jobs, workers=5)
     merged = fe.merge_reports(reps)
-    merged["notes"].append("C13: expectation file written by `ktmc expect` from the core crates; child interpreters import the pykmertools.so built from /repo (cargo build -p pip); batches under RAYON_NUM_THREADS in (1,2,8,16)")
+    merged["notes"].append("C13: expectation file written by `ktmc expect` from the core crates; child interpreters import the pykmertools.so built from /repo (cargo build -p pip); batches under RAYON_NUM_THREADS in (1,2,8,16); one batch per shape (many small / medium / few large records) adding up to more than 2^28 bases")
+    merged["notes"] += skipped
     return merged
 
 
